@@ -213,11 +213,11 @@ ADDED = {
     "C01": " Also decided: the counting argument of the grounded extension (initial members = attacker count 0; first-defeat guard and mark; join at counter 1, else decrement by 1; nothing else enters); every iteration of a component loop that goes on contributes the component's part; the callers of a helper returning a tuple with several same-typed components read each component in the same role (no swapped destructuring); the SAT solver handed to an encoding call is created inside every loop that contains the call (no component is encoded on top of another); a range-based maximal-extension computer always runs on a solver filled by encode_constraints_and_range; nothing reachable from the stage solver's single-extension method uses an admissibility-based computation.",
     "C02": " Also decided (scoped to what the credulous entry points can reach, with their constant flags followed into helpers): an argument turned into a SAT literal belongs to the framework that was encoded; fresh solver per encoding; range search on a range encoding; the stage solver is conflict-free based; every listed argument is considered (no early `break`, no loop-carried switch-off); blocking clauses, selector freshness and retirement of query-local selectors in the range-based acceptance search; the counting argument of the grounded extension (GR answers and the grounded pre-step).",
     "C03": " Also decided (scoped to what the skeptical entry points can reach): literal provenance, fresh solver per encoding, range search on a range encoding, stage layering, every listed argument considered, blocking clauses / selector freshness / retirement in the range-based search, the counting argument of the grounded extension (DS-CO, DS-GR and the grounded pre-step).",
-    "C04": " Also decided: certificate completion of the range-based solvers uses the range encoding; the dynamic solvers' answer caches (which hold the certificates) are invalidated by every update variant.",
+    "C04": " Also decided: certificate completion of the range-based solvers uses the range encoding; the dynamic solvers' answer caches (which hold the certificates) are invalidated by every update variant; a cached witness fits every argument of the list it is cached with (D10); id-addressed vectors reached by dynamic queries cover all ids (D11).",
     "C05": " Also decided: a command line rejected by clap returns Ok only for a help/version request; the answer grammar is decided as a language inclusion on the extracted output language of each writer method (F13), with no bare Write::write.",
     "C06": " Also decided, one structural necessary condition per configuration axis (not the equality of statuses itself): encoding - disjoint variable families and the reference clause shapes for each encoder (rules of C10), and the CLI picks the encoder of the base semantics for every --encoding value; certificate flag - the shortcut used only without a certificate quantifies over the listed arguments like the full search; back end / repetition - searches constrain the solver only through the split of the current set and the selector, and a selector made for one SAT call is retired negatively (query-local clauses never outlive the call).",
     "C07": " Also decided: an accumulating loop over the query list is never left early, and the per-component selection of listed arguments is not switched off by a flag set in an earlier iteration.",
-    "C08": " Also decided: a query reads only the cache of its own kind; the guarded clauses issued when an argument is re-encoded by the selector-based encoder have exactly the shapes of the static complete / stable encodings (F12), with the attacker ids of iter_attacks_to(argument); the attack-assumption encoder's two full encodings issue exactly the clause shapes of the stable / complete encoding with switchable attacks (literals evaluated to polynomials in the slot variables, the slot count and n_vars()), and an attack's assumption is +att(slot(attacked), slot(attacker)) at its own position.",
+    "C08": " Also decided: a query reads only the cache of its own kind; the guarded clauses issued when an argument is re-encoded by the selector-based encoder have exactly the shapes of the static complete / stable encodings (F12), with the attacker ids of iter_attacks_to(argument); the attack-assumption encoder's two full encodings issue exactly the clause shapes of the stable / complete encoding with switchable attacks (literals evaluated to polynomials in the slot variables, the slot count and n_vars()), and an attack's assumption is +att(slot(attacked), slot(attacker)) at its own position; in everything a dynamic query reaches, vectors addressed by argument ids are sized by the id bound, not the live count (defect D11, repaired); a list of decided arguments is cached with a witness only if it is tied to that witness (read off the same SAT model, or cleared of the witness's members: defect D10, repaired).",
     "C09": " Also decided: the freshness test guarding the encoder tables is a by-label look-up or ONE counting function compared before/after; the cache barriers and log/replay obligations of C08; index-pairing of the framework store.",
     "C11": " Also decided: literal provenance across component frameworks; the grounded propagation counts stored attacks with the same multiplicity when it initialises and when it decrements its counters; the whole counting argument of the grounded extension (rule grounded-propagation).",
     "C12": " Also decided: an entry is removed from a per-argument index list at the position found by searching that same list.",
